@@ -1,5 +1,6 @@
 """Executor for FTStore behaviours: runs abstract mutation histories on the real API and logs, after every
 call, the outcome class and the projected state.  Contains no expected values."""
+import json
 import sys
 
 sys.path.insert(0, __import__("os").environ.get("VERIF_REPO", "/repo"))
@@ -278,7 +279,13 @@ def do_action(obj, root, a, emb, beh=None, env=None):
         elif op == "clear":
             f.clear()
         elif op == "fassign":
-            f <<= proj.build_fiber({"k": "F", "e": a["other"]})
+            # one source object per distinct operand of the history: `x <<= src` twice with the same src is an ordinary user pattern, and the
+            # assignment must copy (a later write under one target must not show under the other, nor in src)
+            key = json.dumps(a["other"], sort_keys=True)
+            srcs = env.setdefault("srcs", {})
+            if key not in srcs:
+                srcs[key] = proj.build_fiber({"k": "F", "e": a["other"]})
+            f <<= srcs[key]
         elif op == "itershaperef":
             for _ in f.iterRangeShapeRef(a["lo"], a["hi"], a["step"]):
                 pass
